@@ -14,6 +14,10 @@
 (*   Sync  one Sync call ended: ok = it returned nil; crashed = the fault  *)
 (*         of this run fired; file = shipper file afterwards; objs,        *)
 (*         listed, blabels = bucket afterwards                             *)
+(*   Appear local = further local blocks that now exist in the directory   *)
+(*         (a block with a SMALLER MinTime may appear after newer ones     *)
+(*         were shipped: backfill, out-of-order compaction); uc = the      *)
+(*         upload-compacted setting of the shippers started from now on    *)
 (*   End                                                                   *)
 (* Phase 2 (receive.MultiTSDB scenarios; several tenants, each with its    *)
 (* own TSDB directory and Shipper over the same bucket):                   *)
@@ -66,6 +70,11 @@ Sync == /\ IsEvent("Sync")
               /\ prevFile' = IF e.file.present THEN Range(e.file.uploaded) ELSE prevFile
         /\ UNCHANGED <<locals, uc, cur>>
 
+Appear == /\ IsEvent("Appear")
+          /\ locals' = locals \cup { [b |-> x.b, level |-> x.level, empty |-> x.empty, files |-> Range(x.files)] : x \in Range(Trace[l].local) }
+          /\ uc' = Trace[l].uc
+          /\ UNCHANGED <<everComplete, cur, prevFile>>
+
 (* ---- phase 2 ---- *)
 MSync == IsEvent("MSync") /\ UNCHANGED <<everComplete, locals, uc, cur, prevFile>>
 
@@ -94,7 +103,7 @@ Prune == /\ IsEvent("Prune")
 
 End == IsEvent("End") /\ UNCHANGED <<everComplete, locals, uc, cur, prevFile>>
 
-TraceNext == Header \/ Mut \/ Sync \/ MSync \/ Local \/ Prune \/ End
+TraceNext == Header \/ Mut \/ Sync \/ Appear \/ MSync \/ Local \/ Prune \/ End
 TraceSpec == TraceInit /\ [][TraceNext]_tvars
 TraceAccepted == TLCGet("stats").diameter = TraceLen + 1
 =============================================================================
